@@ -180,7 +180,7 @@ Definition dec_wl (b : bytes) : bytes * dres :=
   else
     let l := unbe (take 8 b) in
     match uadd 8 l with
-    | None => (b, DPanic)
+    | None => (b, DErr)                       (* checked_add: InvalidData *)
     | Some need =>
         if need <=? len b then (drop need b, DSome (WL (take l (drop 8 b)))) else (b, DNone)
     end.
@@ -193,7 +193,7 @@ Definition dec_mapop (b : bytes) : bytes * dres :=
     if tag =? M_UPDATE then
       if total <? 9 then (b, DErr)
       else match uadd 8 total with
-           | None => (b, DPanic)
+           | None => (b, DErr)
            | Some need =>
                if len b <? need then (b, DNone)
                else
@@ -201,7 +201,7 @@ Definition dec_mapop (b : bytes) : bytes * dres :=
                  let rest := drop need b in
                  let klen := unbe (take 8 (drop 1 frame)) in
                  match uadd klen 9 with
-                 | None => (rest, DPanic)
+                 | None => (rest, DErr)
                  | Some kk =>
                      if total <? kk then (rest, DErr)
                      else (rest, DSome (MO (MUpdate (take klen (drop 9 frame)) (drop (9 + klen) frame))))
@@ -210,7 +210,7 @@ Definition dec_mapop (b : bytes) : bytes * dres :=
     else if tag =? M_REMOVE then
       if total <? 1 then (b, DErr)
       else match uadd 8 total with
-           | None => (b, DPanic)
+           | None => (b, DErr)
            | Some need =>
                if len b <? need then (b, DNone)
                else (drop need b, DSome (MO (MRemove (drop 1 (take total (drop 8 b))))))
@@ -288,13 +288,13 @@ Fixpoint cmd_step (fuel : nat) (s : dstate) (b : bytes) : dstate * bytes * dres 
             let nl := unbe (take 8 (drop (if hh then 8 else 0) b)) in
             let ll := unbe (take 8 (drop (if hh then 16 else 8) b)) in
             match uadd hl nl with
-            | None => (SHeader, b, DPanic)
+            | None => (SHeader, b, DErr)
             | Some a1 =>
                 match uadd a1 ll with
-                | None => (SHeader, b, DPanic)
+                | None => (SHeader, b, DErr)
                 | Some a2 =>
                     match uadd a2 2 with
-                    | None => (SHeader, b, DPanic)
+                    | None => (SHeader, b, DErr)
                     | Some need =>
                         if len b - req <? need then (SCmdRegistration flags, b, DNone)
                         else
@@ -325,10 +325,10 @@ Fixpoint cmd_step (fuel : nat) (s : dstate) (b : bytes) : dstate * bytes * dres 
             let nl := unbe (take 8 (drop (if hh then 8 else 0) b)) in
             let ll := unbe (take 8 (drop (if hh then 16 else 8) b)) in
             match uadd hl nl with
-            | None => (SHeader, b, DPanic)
+            | None => (SHeader, b, DErr)
             | Some a1 =>
                 match uadd a1 ll with
-                | None => (SHeader, b, DPanic)
+                | None => (SHeader, b, DErr)
                 | Some need =>
                     if len b - req <? need then (SCmdAddressedHeader flags, b, DNone)
                     else
